@@ -24,8 +24,11 @@ byte for byte by the component `fec`) — has that law for every ratio the FEC l
 * `C07_*_rsNew`         the decoder theorems of `Props/C07` instantiated at `rsNew`: no hypothesis about the
                         code is left.
 
-`Lawful` is restricted to the accepted ratios (`d + p ≤ 256`); without the restriction it is
-unsatisfiable by ANY codec (`C07_unrestricted_law_impossible`).
+`Lawful` is restricted to the accepted ratios (`d + p ≤ 256`).  The bound is sharp for this code
+(`C07_rsNew_range_sharp`: at 2/255 the nodes 0 and 256 collide and two present shards do not
+determine the data), and without it the law is unsatisfiable by ANY codec (no `[302, 2]` MDS code over
+256 letters: the 256 codewords `(0, b)` differ pairwise outside position 0, so a codeword `(1, 0)`
+would have to meet a different one of them at each of the other 301 positions — not formalised).
 -/
 import KcpVerif.Props.C07
 import KcpVerif.Lemmas.RSBridge
@@ -107,6 +110,16 @@ theorem C07_rsNew_any_k (d p L : Nat) (data : List Bytes) (present : List Bool)
   ⟨C07_rsNew_lawful.enc_length d p data hd hp hn hdl,
    C07_rsNew_lawful.enc_size d p L data hd hp hn hdl hsz,
    C07_rsNew_lawful.recon d p L data present hd hp hn hL hdl hsz hpl hcnt⟩
+
+/-- The range `d + p ≤ 256` of the law is sharp for this code: at `d = 2`, `p = 255` the Vandermonde
+    nodes of shard 0 and shard 256 coincide (`byte(256) = 0`) and from these two present shards
+    `ReconstructData` fails (`errSingular`) — evaluated in the kernel.  (klauspost switches to a
+    different construction above 256 shards; `newFECEncoder`/`newFECDecoder` refuse the range.) -/
+theorem C07_rsNew_range_sharp :
+    let present := (List.range 257).map fun i => i == 0 || i == 256
+    present.length = 2 + 255 ∧ 2 ≤ present.count true ∧
+    (rsNew 2 255).recon (mask present ([[7], [9]] ++ (rsNew 2 255).enc [[7], [9]])) = none := by
+  decide +kernel
 
 /-! ## the decoder theorems for the executable code: no hypothesis about the code is left -/
 
